@@ -27,6 +27,7 @@ import SwcVerif.Model.AlgoRunNormalizer
 import SwcVerif.Model.AlgoRunBranches
 import SwcVerif.Model.AlgoRunRedirect
 import SwcVerif.Model.AlgoRunAffine
+import SwcVerif.Model.AlgoRunRodrigues
 import SwcVerif.Model.AlgoRunViews
 import SwcVerif.Model.AlgoRunCat
 import SwcVerif.Model.AlgoRunAssemble
@@ -102,6 +103,7 @@ def dispatch (op : String) (args : List String) : String :=
   | "gfromswc" => AlgoRun.handleFromSwc args
   | "gredirect" => AlgoRun.handleRedirect args
   | "gaffine" | "gpipe" => AlgoRun.handleAffine op args
+  | "grod" | "ghom" | "gmview" | "gortho" => AlgoRun.handleRodrigues op args
   | "gviews" => AlgoRun.handleViews args
   | "gslice" => AlgoRun.handleSlice args
   | "gcat" => AlgoRun.handleCat args
